@@ -305,6 +305,39 @@ theorem C14_woodbury_branch (hz : LawfulIsZero K) {m n : Nat} (s : ATAD K m n) :
     · intro d' hd; cases hd
     · intro _; simp [ATAD.gOf]
 
+/-- **constructor checks of `MatrixATADSolver`**: the arguments are accepted exactly when `D` is a `Diagonal` with a 1-D
+    diagonal or a 1-D/2-D array and `W` is `None`, a `Diagonal` with a 1-D diagonal, or an array; a bad `D` is reported
+    (`ValueError`) before `W` is looked at, a non-array `W` gives `TypeError`. -/
+theorem C14_atad_validate (d : DArg) (w : WArg) :
+    (atadValidate d w = .ok () ↔
+      ((d = .diagonalOp 1 ∨ d = .array 1 ∨ d = .array 2) ∧ (w = .none ∨ w = .diagonalOp 1 ∨ w = .array))) ∧
+    (¬ (d = .diagonalOp 1 ∨ d = .array 1 ∨ d = .array 2) → atadValidate d w = .error "value") ∧
+    ((d = .diagonalOp 1 ∨ d = .array 1 ∨ d = .array 2) → w = .other → atadValidate d w = .error "type") := by
+  refine ⟨?_, ?_, ?_⟩
+  · cases d with
+    | diagonalOp nd =>
+      cases w with
+      | none => by_cases h : nd = 1 <;> simp [atadValidate, h]
+      | diagonalOp wn => by_cases h : nd = 1 <;> by_cases h2 : wn = 1 <;> simp [atadValidate, h, h2]
+      | array => by_cases h : nd = 1 <;> simp [atadValidate, h]
+      | other => by_cases h : nd = 1 <;> simp [atadValidate, h]
+    | array nd =>
+      cases w with
+      | none => by_cases h : nd = 1 <;> by_cases h' : nd = 2 <;> simp [atadValidate, h, h']
+      | diagonalOp wn => by_cases h : nd = 1 <;> by_cases h' : nd = 2 <;> by_cases h2 : wn = 1 <;> simp [atadValidate, h, h', h2]
+      | array => by_cases h : nd = 1 <;> by_cases h' : nd = 2 <;> simp [atadValidate, h, h']
+      | other => by_cases h : nd = 1 <;> by_cases h' : nd = 2 <;> simp [atadValidate, h, h']
+  · intro h
+    cases d with
+    | diagonalOp nd =>
+      have : nd ≠ 1 := fun e => h (Or.inl (by rw [e]))
+      simp [atadValidate, this]
+    | array nd =>
+      have h1 : nd ≠ 1 := fun e => h (Or.inr (Or.inl (by rw [e])))
+      have h2 : nd ≠ 2 := fun e => h (Or.inr (Or.inr (by rw [e])))
+      simp [atadValidate, h1, h2]
+  · rintro (rfl | rfl | rfl) rfl <;> simp [atadValidate]
+
 /-- **`accuracy`**: the quantity compared with `b` is `(Aᴴ W A + D) x` (1-D and 2-D `D`, vector and matrix
     `x`), so `accuracy x b = rel_res((Aᴴ W A + D) x, b)`. -/
 theorem C14_accuracy {m n : Nat} {R : Type} [Zero R] [Div R] [Max R] [LT R] [DecidableLT R]
